@@ -758,7 +758,9 @@ def run_case(spec, workdir, registry=False, mol=None):
                           "name": getattr(ecp_kw, "g09" if spec["prog"] == "g16" and getattr(ecp_kw, "g09", None) else spec["prog"], None) or ecp_kw.name,
                           "z": {a.label: int(a.atomic_number) for a in mol.atoms}}
         all_ecp = ecp_kw is not None and all(a.atomic_number >= ecp_kw.min_atomic_number for a in mol.atoms)
-        res["kw_expected"] = expected_keyword_words(spec, calc.input.keywords, method, mol.n_atoms, res["n_heavy"] > 0, all_ecp)
+        # an ECP keyword is required exactly when some atom has Z >= ECP.min_atomic_number (same rule as the ecp-threshold oracle)
+        needs_ecp = ecp_kw is not None and any(a.atomic_number >= ecp_kw.min_atomic_number for a in mol.atoms)
+        res["kw_expected"] = expected_keyword_words(spec, calc.input.keywords, method, mol.n_atoms, needs_ecp, all_ecp)
         res["requested_kw"] = [repr(k) for k in calc.input.keywords]
         if spec["prog"] == "nwchem":
             import autode.wrappers.keywords as kws_
